@@ -216,6 +216,15 @@ def run_case(inp: dict) -> list[dict]:
                 lost = np.any(coords > (x0 + np.array(shape))[:, None] + 1e-9, axis=0)
                 if np.all(lost[bad]):
                     cause = "order0-window"
+            elif order == 0 and cs:
+                # prepare_affine_cornersafe: x0 = int(c - L/2), x1 = int(x0 + L + 1); scipy's
+                # mode="constant" fills every coordinate beyond the last index x1 - 1
+                Lf = float(np.sqrt(np.sum(np.asarray(shape, dtype=np.float32) ** 2)))
+                x0 = np.trunc(p_used - Lf / 2)
+                last = np.trunc(x0 + Lf + 1) - 1
+                lost = np.any((coords > last[:, None] + 1e-9) | (coords < x0[:, None] - 1e-9), axis=0)
+                if np.all(lost[bad]):
+                    cause = "order0-window"
             inp2 = dict(inp, cause=cause)
             viols.append({"clause": "coordinate-rule", "input": inp2,
                           "desc": f"voxel differs from tomogram interpolated at pos/scale + R(k-(n-1)/2) "
